@@ -333,6 +333,18 @@ where
         .l1_ratio(F::cast(l1))
         .l2_ratio(F::cast(l2));
     let valid = params.clone().check().map_err(|e| json!({"ev": "error", "at": "check", "msg": format!("{}", e)}))?;
+    // optional second parameter object (inp.hyper2): the model is built from `hyper`, but every
+    // fit_with(Some(model), ..) is called on parameters made from `hyper2` (a continued model re-tuned / default params)
+    let valid_call = match inp.get("hyper2") {
+        Some(h2) if h2.is_object() => Ftrl::<F>::params_with_rng(Xoshiro256Plus::seed_from_u64(seed))
+            .alpha(F::cast(rat(h2, "alpha")))
+            .beta(F::cast(rat(h2, "beta") * u))
+            .l1_ratio(F::cast(rat(h2, "l1")))
+            .l2_ratio(F::cast(rat(h2, "l2")))
+            .check()
+            .map_err(|e| json!({"ev": "error", "at": "check2", "msg": format!("{}", e)}))?,
+        _ => valid.clone(),
+    };
     // initial model: "seed" = Ftrl::new (random z from the seeded generator), "given" = chosen z, n
     // installed through the public Deserialize impl (the fields are private)
     let mut model: Option<Ftrl<F>> = match gets(inp, "init") {
@@ -385,7 +397,7 @@ where
                 Err(_) => json!([-1, -1]),
             }
         });
-        let m = match guarded(|| valid.fit_with(model.take(), &ds)) {
+        let m = match guarded(|| valid_call.fit_with(model.take(), &ds)) {
             Ok(Ok(m)) => m,
             Ok(Err(e)) => return Err(json!({"ev": "error", "at": "fit_with", "after": i + 1, "msg": format!("{}", e)})),
             Err(pm) => return Err(panic_event("fit_with", &pm)),
